@@ -75,9 +75,9 @@ static bool close_rel(long double a, long double b, double rel) {
 }
 
 // ---------------------------------------------------------------- weight generators
-enum Kind { K_UNIFORM, K_EXPSPREAD, K_HEAVYTAIL, K_INCREASING, K_DECREASING, K_GIANT, K_DYADIC, K_EQUAL, K_DYADIC_EXP, K_TAUADJ, K_NKINDS };
+enum Kind { K_UNIFORM, K_EXPSPREAD, K_HEAVYTAIL, K_INCREASING, K_DECREASING, K_GIANT, K_DYADIC, K_EQUAL, K_DYADIC_EXP, K_SUBNORMAL, K_SUBNORMAL_MIX, K_HUGE, K_TAUADJ, K_NKINDS };
 static const char* kind_name(int k) {
-  static const char* n[] = {"uniform", "expspread", "heavytail", "increasing", "decreasing", "giant", "dyadic", "equal", "dyadic_exp", "tau_adjacent"};
+  static const char* n[] = {"uniform", "expspread", "heavytail", "increasing", "decreasing", "giant", "dyadic", "equal", "dyadic_exp", "subnormal", "subnormal_mix", "huge", "tau_adjacent"};
   return n[k];
 }
 
@@ -100,7 +100,17 @@ struct WGen {
       case K_DYADIC: dy_range = r.pick<uint64_t>({4, 1000, 1u << 20}); break;
       case K_EQUAL: base = r.pick({1.0, 0.1, 49.0, 1234567.891, 1e-9, 3e9, 1.0 / 3.0}); break;
       case K_DYADIC_EXP: p1 = r.pick({3.0, 20.0, 55.0}); break;
+      case K_SUBNORMAL: case K_SUBNORMAL_MIX: p1 = static_cast<double>(r.below(3)); break;
+      // around 1e300, scaled so that k * (sum of all weights) stays far below DBL_MAX (the sketch forms such products)
+      case K_HUGE: p1 = static_cast<double>(r.below(3)); base = std::min(1e300, 1e304 / (static_cast<double>(n) * 2000.0)); break;
       default: break;
+    }
+  }
+  static double subnormal(Rng& r, int variant) {
+    switch (variant) {
+      case 0: return std::ldexp(1.0, -1023);                                       // all equal
+      case 1: return std::ldexp(1.0 + r.unit(), -1024 - static_cast<int>(r.below(6)));   // [2^-1030, 2^-1023)
+      default: return std::ldexp(static_cast<double>(1 + r.below(255)), -1030);    // j * 2^-1030
     }
   }
   // tau / min_heavy: current threshold and lightest exact-weight sample of the sketch being fed (0 = unknown)
@@ -114,6 +124,10 @@ struct WGen {
       case K_GIANT: return (i == giant_pos || i == giant_pos2) ? base * p1 * (1 + r.unit()) : base * (0.5 + r.unit());
       case K_DYADIC: return static_cast<double>(1 + r.below(dy_range)) / 1024.0;
       case K_EQUAL: return base;
+      // subnormal doubles with at least 44 significant bits left: [2^-1030, 2^-1022)
+      case K_SUBNORMAL: return subnormal(r, static_cast<int>(p1));
+      case K_SUBNORMAL_MIX: return r.coin() ? subnormal(r, 1 + static_cast<int>(r.below(2))) : std::ldexp(1.0 + r.unit(), -1022 + static_cast<int>(r.below(6)));
+      case K_HUGE: return p1 == 0 ? base : (p1 == 1 ? base * (0.5 + r.unit()) : (r.chance(0.2) ? base : base * 1e-10 * (1 + r.unit())));
       case K_DYADIC_EXP: return std::exp2(static_cast<double>(r.range(-static_cast<int64_t>(p1), static_cast<int64_t>(p1))));
       case K_TAUADJ: {
         const double inf = std::numeric_limits<double>::infinity();
